@@ -83,15 +83,59 @@ pub fn run(ctx: &Ctx) -> Report {
     let games = ctx.tier.pick(8000, 200_000) / ctx.shard_count() as u32;
     run_prop(ctx, "c17-games", games, 2000, gen::game_strategy(80), &mut rep, |case, rep| {
         let Some((start, _)) = gen::start_pos(&case.start, &corp, gen::MIX_DEFAULT) else { return Ok(()) };
+        let start_fen = start.to_fen();
+        let mut live = guard(|| Board::from_fen(&start_fen)).ok();
+        if let Some(b) = live.as_mut() {
+            let _ = guard(|| SimpleEvaluator.evaluate(b)); // the board has been evaluated before anything is played
+        }
         let mut game = Game::new(start);
-        for &c in &case.choices {
+        for (i, &c) in case.choices.iter().enumerate() {
             let legal = game.cur.legal_moves();
             if legal.is_empty() {
                 break;
             }
-            game.play(gen::choose_move(&game, &legal, case.weighted, c));
+            let m = gen::choose_move(&game, &legal, case.weighted, c);
+            if let Some(b) = live.as_mut() {
+                match eng::find_ply(b, &m.uci()) {
+                    Some(ply) => {
+                        // now and then: make, evaluate, take back, evaluate again, then really play
+                        if i % 5 == 2 {
+                            let _ = guard(|| {
+                                b.make_move(ply);
+                                let _ = SimpleEvaluator.evaluate(b);
+                                b.unmake_move();
+                                let _ = SimpleEvaluator.evaluate(b);
+                            });
+                        }
+                        if guard(|| b.make_move(ply)).is_err() {
+                            live = None;
+                        }
+                    }
+                    None => live = None,
+                }
+            }
+            game.play(m);
             rep.class("source:game");
             check_pos(&game.cur, rep)?;
+            // the same position as reached by play on a live board that was evaluated along the
+            // way must evaluate like the freshly loaded one
+            if let Some(b) = live.as_mut() {
+                let fresh = eval_of(&game.cur);
+                let got = guard(|| SimpleEvaluator.evaluate(b));
+                rep.eval(1);
+                if let (Ok(f), Ok(g)) = (&fresh, &got) {
+                    if f != g {
+                        let mk = super::c01::move_kind(&m);
+                        return Err(Violation::new(
+                            "mirror",
+                            &format!("mirror/played-board/{mk}"),
+                            format!("position {} evaluates to {g} on the board reached by play [{}] but to {f} when loaded afresh (and so differs from its mirror image's evaluation)", game.cur.to_fen(), game.moves_uci().join(" ")),
+                            json!({"start_fen": start_fen, "moves": game.moves_uci()}),
+                        ));
+                    }
+                }
+                rep.class("played-board-vs-fresh");
+            }
         }
         Ok(())
     });
@@ -100,6 +144,37 @@ pub fn run(ctx: &Ctx) -> Report {
 
 pub fn replay(_ctx: &Ctx, case: &Value) -> Report {
     let mut rep = Report::new();
+    if let Some(sf) = case["start_fen"].as_str() {
+        // a played-board case: replay the moves on a live board, evaluating along the way
+        let moves: Vec<String> = case["moves"].as_array().map(|a| a.iter().filter_map(|x| x.as_str().map(String::from)).collect()).unwrap_or_default();
+        let (Ok(start), Ok(mut b)) = (Pos::from_fen(sf), guard(|| Board::from_fen(sf))) else {
+            rep.infra_errors.push("bad replay".into());
+            return rep;
+        };
+        let _ = guard(|| SimpleEvaluator.evaluate(&mut b));
+        let mut game = Game::new(start);
+        for (i, u) in moves.iter().enumerate() {
+            let (Some(m), Some(ply)) = (game.cur.find_legal(u), eng::find_ply(&b, u)) else { break };
+            if i % 5 == 2 {
+                let _ = guard(|| {
+                    b.make_move(ply);
+                    let _ = SimpleEvaluator.evaluate(&mut b);
+                    b.unmake_move();
+                    let _ = SimpleEvaluator.evaluate(&mut b);
+                });
+            }
+            b.make_move(ply);
+            game.play(m);
+            rep.eval(1);
+            if let (Ok(f), Ok(g)) = (eval_of(&game.cur), guard(|| SimpleEvaluator.evaluate(&mut b))) {
+                if f != g {
+                    rep.violation(Violation::new("mirror", "mirror/played-board/replay", format!("{} evaluates to {g} on the played board, {f} when loaded afresh", game.cur.to_fen()), case.clone()));
+                    return rep;
+                }
+            }
+        }
+        return rep;
+    }
     match Pos::from_fen(case["fen"].as_str().unwrap_or("")) {
         Ok(p) => {
             if let Err(v) = check_pos(&p, &mut rep) {
@@ -112,5 +187,5 @@ pub fn replay(_ctx: &Ctx, case: &Value) -> Report {
 }
 
 pub const LEVEL: &str = "exploration";
-pub const RULE: &str = "positions = synthesised positions with independent material per side (so evaluations are rarely 0), every position of generated games, and the corpus. Metamorphic oracle: eval(P) == eval(mirror(P)) (ranks flipped, colours, side to move and castling letters swapped) and eval(P) == -eval(P with the other side to move) whenever that twin is itself a valid position (skipped cases counted). Non-trivial = eval != 0; distinct by position identity.";
+pub const RULE: &str = "positions = synthesised positions with independent material per side (so evaluations are rarely 0), every position of generated games (also evaluated on the live board reached by play, which was evaluated along the way and after take-backs, and must agree with the freshly loaded position), and the corpus. Metamorphic oracle: eval(P) == eval(mirror(P)) (ranks flipped, colours, side to move and castling letters swapped) and eval(P) == -eval(P with the other side to move) whenever that twin is itself a valid position (skipped cases counted). Non-trivial = eval != 0; distinct by position identity.";
 pub const ASSUMPTIONS: &[&str] = &["positions are set up through Board::from_fen (C07's subject)", "mirror() is the oracle's; material stays within legal bounds so the evaluator's saturating arithmetic is never reached"];
